@@ -618,7 +618,7 @@ def shard(ctx):
                 ctx.sample({'formula': d_str(d), 'truth_table_says': mon.case['truth_table_says']})
 
     # ---- (b) random larger formulas
-    nrand = ctx.scale(960, 32000)
+    nrand = ctx.scale(960, 12000)
     sizes = [n for n in range(4, 15) for _ in range(16 - n)]     # 4..14 connectives, smaller ones more often
     for k in range(nrand):
         n = rng.choice(sizes)
@@ -650,7 +650,7 @@ def shard(ctx):
                 check_clauses(mon, perm, build_secs)
             ctx.count('clause_sets_all_orderings:4')
     # random larger lists: shuffled literals, duplicates, tautological clauses
-    for k in range(ctx.scale(1600, 60000)):
+    for k in range(ctx.scale(1600, 20000)):
         nv = rng.randint(2, 5)
         ncl = rng.randint(2, 7)
         cls = []
